@@ -243,6 +243,13 @@ func (c *Chan[T]) execSend(s *Sim, g *G, v T) {
 		if c.n == 0 && s.hasPending(&c.chanCore, g, true) && s.choose(2) == 0 {
 			p := s.choosePartner(&c.chanCore, g, true)
 			c.deliver(p, v)
+			// the value conceptually passes through slot `tail`: rotate the ring as the Go runtime
+			// does, and let the receiver issue the slot's acquire/release when it resumes, so that
+			// "the k-th receive happens before the (k+cap)-th send completes" still holds
+			if RaceBuild {
+				p.g.hbSlot = &c.hb[tail]
+			}
+			c.head = (c.head + 1) % c.cap
 			raceRelease(&p.g.wakeSync)
 			return
 		}
@@ -306,6 +313,7 @@ func (c *Chan[T]) recv() (T, bool) {
 	if g.completed {
 		g.completed = false
 		raceAcquire(&g.wakeSync)
+		g.slotSync()
 		return slot.v, slot.ok
 	}
 	return c.execRecv(s, g)
@@ -509,6 +517,7 @@ func Select(cases ...Case) int {
 	if g.completed {
 		g.completed = false
 		raceAcquire(&g.wakeSync)
+		g.slotSync()
 		return g.fired
 	}
 	// collect the ready non-default cases in source order
@@ -549,4 +558,15 @@ func Select(cases ...Case) int {
 	i := rd[k]
 	cases[i].exec(s, g)
 	return i
+}
+
+// slotSync: a receive completed by a direct hand-off on a buffered channel still synchronises on the slot.
+//
+//go:norace
+func (g *G) slotSync() {
+	if g.hbSlot != nil {
+		raceAcquire(g.hbSlot)
+		raceRelease(g.hbSlot)
+		g.hbSlot = nil
+	}
 }
